@@ -17,12 +17,91 @@ type vNet struct {
 	drops        map[int]bool // further lost positions (thorough tier)
 }
 
+// Oracles that hold in every two-party scenario, whatever it is about (checked on every
+// packet that crosses the wire):
+//   - SACK truth (C05): the cumulative ack of an emitted SACK covers, beyond the point the
+//     receiver started from, only TSNs that were delivered to it or that a forward-TSN
+//     delivered to it told it to skip, and its gap blocks name only TSNs delivered to it;
+//   - window (C10): a writer pass that puts new data on the wire leaves the bytes in flight
+//     within the congestion window, unless that data is the single chunk in flight.
+type vSide struct {
+	seen    map[uint32]bool // TSNs of DATA chunks delivered to this side
+	start   uint32          // its cumulative point when the scenario began
+	started bool
+	skipTo  uint32 // highest new cumulative TSN of a forward-TSN delivered to it
+	skipped bool
+}
+
+// vSides is filled by vInbound (every packet handed to an association, by a vNet or by a
+// harness directly) and by vNoteChunk (chunks injected without a packet).
+var vSides map[*Association]*vSide
+
+func vSideOf(a *Association) *vSide {
+	if vSides == nil {
+		vSides = map[*Association]*vSide{}
+	}
+	sd := vSides[a]
+	if sd == nil {
+		sd = &vSide{seen: map[uint32]bool{}, start: a.peerLastTSN(), started: true}
+		vSides[a] = sd
+	}
+	return sd
+}
+
+func (n *vNet) side(a *Association) *vSide { return vSideOf(a) }
+
+func (n *vNet) checkSackTruth(x *Association, p *packet) {
+	sd := n.side(x)
+	for _, ch := range p.chunks {
+		sack, ok := ch.(*chunkSelectiveAck)
+		if !ok {
+			continue
+		}
+		for t := sd.start + 1; sna32LTE(t, sack.cumulativeTSNAck) && t-sd.start <= 64; t++ {
+			vassert(sd.seen[t] || (sd.skipped && sna32LTE(t, sd.skipTo)), "the cumulative ack of an emitted SACK covers only TSNs that were received or explicitly skipped")
+		}
+		for _, b := range sack.gapAckBlocks {
+			for off := uint32(b.start); off <= uint32(b.end) && off-uint32(b.start) <= 64; off++ {
+				vassert(sd.seen[sack.cumulativeTSNAck+off], "the gap blocks of an emitted SACK name only TSNs that were received")
+			}
+		}
+	}
+}
+
+func vNoteDelivered(y *Association, chunks []chunk) {
+	sd := vSideOf(y)
+	for _, ch := range chunks {
+		switch c := ch.(type) {
+		case *chunkPayloadData:
+			sd.seen[c.tsn] = true
+		case *chunkForwardTSN:
+			if !sd.skipped || sna32GT(c.newCumulativeTSN, sd.skipTo) {
+				sd.skipTo, sd.skipped = c.newCumulativeTSN, true
+			}
+		case *chunkIForwardTSN:
+			if !sd.skipped || sna32GT(c.newCumulativeTSN, sd.skipTo) {
+				sd.skipTo, sd.skipped = c.newCumulativeTSN, true
+			}
+		}
+	}
+}
+
 func (n *vNet) wire(x, y *Association) int {
 	c := 0
-	for _, raw := range vWriterWake(x) {
+	n.side(x)
+	n.side(y)
+	nextBefore, inflightBefore := x.myNextTSN, x.inflightQueue.size()
+	pkts := vWriterWake(x)
+	if x.myNextTSN != nextBefore && !vIsShut(x) {
+		// new data left in this pass
+		newChunks := int(x.myNextTSN - nextBefore)
+		vassert(uint32(x.inflightQueue.getNumBytes()) <= x.CWND() || (inflightBefore == 0 && newChunks == 1), "new data goes on the wire only while the bytes in flight stay within the congestion window (or as the single chunk in flight)")
+	}
+	for _, raw := range pkts {
 		p := vDecode(raw)
 		lostFwd := false
 		if p != nil {
+			n.checkSackTruth(x, p)
 			for _, ch := range p.chunks {
 				switch ch.(type) {
 				case *chunkForwardTSN, *chunkIForwardTSN:
@@ -413,3 +492,24 @@ func vh_C02_L9_ack_timer_callback_unlocked()   { vh_C19_L6_ack_timer_interleavin
 func vh_C02_L9_ordered_reassembly_any_ssn()    { vh_C01_L5_ordered_reassembly() }
 func vh_C02_L9_timer_loop_callbacks_unlocked() { vh_C20_L6_timer_loop_fires_callbacks_unlocked() }
 func vh_C02_L9_skip_clears_exactly_its_range() { vh_C05_step_clear_range() }
+
+// C02.L10: things that would stall an association for good although the network is fine: a
+// stale handshake chunk that resets an established association (= C04.L2), a handshake timer
+// left running after a simultaneous open (= C04.L1b), a lock taken against the hierarchy when
+// a stream is closed (the wrappers of every lock assert the order; = C14.L5), a wake-up of
+// the writer that is slept through (= C20.L10), a hand-over token lost by a failed blocking
+// write (= C20.L9), a handshake result that is dropped (= C04.L7).
+func vh_C02_L10_stale_handshake_chunks_do_not_reset_the_association() {
+	vh_C04_L2_stale_chunks_ignored()
+}
+func vh_C02_L10_no_handshake_timer_left_after_simultaneous_open() { vh_C04_L1_simultaneous_open() }
+func vh_C02_L10_stream_close_keeps_the_lock_order()               { vh_C14_L5_in_progress_keeps_request() }
+func vh_C02_L10_writer_wake_up_is_not_slept_through() {
+	vh_C20_L10_call_during_a_transport_write_is_served()
+}
+func vh_C02_L10_blocked_writers_are_not_left_behind() {
+	vh_C20_L9_parked_write_fails_while_others_go_on()
+}
+func vh_C02_L10_handshake_result_is_not_dropped() {
+	vh_C04_L7_handshake_result_waits_for_the_connect_call()
+}
